@@ -1,6 +1,9 @@
 import PhyloModel.Props.C16
+import PhyloModel.Props.C16Source
 #print axioms C16.format_is_strip
 #print axioms C16.arena_format
 #print axioms C16.format_parses_to_strip
 #print axioms C16.strip_wf
 #print axioms C16.stripL_wf
+#print axioms C16.model_table_is_source_table
+#print axioms C16.source_lists_nine_formats
